@@ -32,6 +32,33 @@ inductive Reach (P : Prog) : Frid → Frid → Prop
   | refl (i : Frid) : Reach P i i
   | step {i y j : Frid} : Child P i y → Reach P y j → Reach P i j
 
+/-- ownership of the auxiliaries that are not done: an original auxiliary that is entered (not done) belongs
+to the frame that names it (`aux.main is frame`) -/
+def MI (P : Prog) (s : St W) : Prop :=
+  ∀ f x, x ∈ kids P f → (P.framer x).original = true → (s.fr x).done = false → (s.fr x).main = some f
+
+/-- framer `y`, if it is an original auxiliary, has been claimed by the frame that names it -/
+def Claimed (P : Prog) (y : Frid) (s : St W) : Prop :=
+  ∀ f, y ∈ kids P f → (P.framer y).original = true → (s.fr y).main = some f
+
+/-- a write to one framer that keeps its `main` and does not lower its `done` keeps the ownership invariant -/
+theorem MI.modFr {P : Prog} {s : St W} (h : MI P s) (i : Frid) (f : FramerSt → FramerSt)
+    (hm : (f (s.fr i)).main = (s.fr i).main) (hd : (f (s.fr i)).done = false → (s.fr i).done = false) :
+    MI P (s.modFr i f) := by
+  intro g x hx ho hdn
+  by_cases e : x = i
+  · subst e
+    have e1 : (s.modFr x f).fr x = f (s.fr x) := by simp [St.modFr, St.setFr, St.fr]
+    rw [e1] at hdn ⊢
+    rw [hm]; exact h g x hx ho (hd hdn)
+  · have e1 : (s.modFr i f).fr x = s.fr x := by simp [St.modFr, St.setFr, St.fr, e]
+    rw [e1] at hdn ⊢
+    exact h g x hx ho hdn
+
+theorem MI.congr {P : Prog} {s s' : St W} (h : MI P s)
+    (hd : ∀ x, (s'.fr x).done = false → (s.fr x).done = false) (hm : ∀ x, (s'.fr x).main = (s.fr x).main) :
+    MI P s' := fun f x hx ho hdn => by rw [hm x]; exact h f x hx ho (hd x hdn)
+
 /-- a `done` act only names framer `k` -/
 def DoneOnly (k : Frid) : Act → Prop
   | .done frs => ∀ j, j ∈ frs → j = k
@@ -273,15 +300,16 @@ structure Step (P : Prog) (i : Frid) (s s' : St W) : Prop where
   active : ∀ j, j ≠ i → (s'.fr j).active = (s.fr j).active
   actives : ∀ j, j ≠ i → (s'.fr j).actives = (s.fr j).actives
   flags : s.bad = true → s'.bad = true
+  mainI : MI P s → MI P s'
 
 theorem Step.refl (P : Prog) (i : Frid) (s : St W) : Step P i s s :=
-  ⟨fun _ _ => rfl, fun _ _ => rfl, fun _ _ => rfl, fun _ _ => rfl, id⟩
+  ⟨fun _ _ => rfl, fun _ _ => rfl, fun _ _ => rfl, fun _ _ => rfl, id, id⟩
 
 theorem Step.trans {P : Prog} {i : Frid} {s1 s2 s3 : St W} (h1 : Step P i s1 s2) (h2 : Step P i s2 s3) :
     Step P i s1 s3 :=
   ⟨fun j hj => (h2.core j hj).trans (h1.core j hj), fun j hj => (h2.done j hj).trans (h1.done j hj),
    fun j hj => (h2.active j hj).trans (h1.active j hj), fun j hj => (h2.actives j hj).trans (h1.actives j hj),
-   fun h => h2.flags (h1.flags h)⟩
+   fun h => h2.flags (h1.flags h), fun h => h2.mainI (h1.mainI h)⟩
 
 /-- the framer's own `active` / `actives` are kept -/
 def Keep (i : Frid) (s s' : St W) : Prop :=
@@ -340,20 +368,45 @@ end sub
 
 /-! ### primitive steps -/
 
-theorem step_modFr (P : Prog) (i : Frid) (f : FramerSt → FramerSt) (s : St W) : Step P i s (s.modFr i f) := by
-  refine ⟨?_, ?_, ?_, ?_, ?_⟩
+/-- a write to framer `i` itself, given that the ownership invariant survives -/
+theorem step_modFr' (P : Prog) (i : Frid) (f : FramerSt → FramerSt) (s : St W)
+    (hmi : MI P s → MI P (s.modFr i f)) : Step P i s (s.modFr i f) := by
+  refine ⟨?_, ?_, ?_, ?_, ?_, hmi⟩
   · intro j hj
     have : j ≠ i := fun e => hj (e ▸ Reach.refl j)
     simp [this]
-  all_goals first | (intro j hj; simp [hj]) | (intro h; simpa using h)
+  · intro j hj; simp [hj]
+  · intro j hj; simp [hj]
+  · intro j hj; simp [hj]
+  · intro h; simpa using h
+
+/-- a write to framer `i` itself that keeps `main` and does not lower `done` -/
+theorem step_modFr (P : Prog) (i : Frid) (f : FramerSt → FramerSt) (s : St W)
+    (hf : (f (s.fr i)).main = (s.fr i).main ∧ ((f (s.fr i)).done = false → (s.fr i).done = false) := by
+      first | exact ⟨rfl, fun h => h⟩ | exact ⟨rfl, fun h => nomatch h⟩) :
+    Step P i s (s.modFr i f) :=
+  step_modFr' P i f s (fun h => h.modFr i f hf.1 hf.2)
+
+/-- `self.done = False` of a framer that has been claimed by the frame naming it -/
+theorem step_undone (P : Prog) (i : Frid) (s : St W) (hcl : Claimed P i s) :
+    Step P i s (s.modFr i (fun x => { x with done := false })) := by
+  refine step_modFr' P i _ s ?_
+  intro hmi g x hx hox hd
+  by_cases e : x = i
+  · subst e
+    simp only [fr_modFr, if_true]
+    exact hcl g hx hox
+  · simp only [fr_modFr, e, if_false] at hd ⊢
+    exact hmi g x hx hox hd
 
 theorem step_emit (P : Prog) (i : Frid) (e : Event) (s : St W) : Step P i s (s.emit e) :=
-  ⟨fun _ _ => rfl, fun _ _ => rfl, fun _ _ => rfl, fun _ _ => rfl, id⟩
+  ⟨fun _ _ => rfl, fun _ _ => rfl, fun _ _ => rfl, fun _ _ => rfl, id, id⟩
 
-/-- writing only `main` (claim / release) of a framer below `i` -/
-theorem step_main (P : Prog) (i y : Frid) (hy : Child P i y) (m : Option Fid) (s : St W) :
+/-- writing only `main` (claim / release) of a framer below `i`, given that the ownership invariant survives -/
+theorem step_main (P : Prog) (i y : Frid) (hy : Child P i y) (m : Option Fid) (s : St W)
+    (hmi : MI P s → MI P (s.modFr y (fun x => { x with main := m }))) :
     Step P i s (s.modFr y (fun x => { x with main := m })) := by
-  refine ⟨?_, ?_, ?_, ?_, ?_⟩
+  refine ⟨?_, ?_, ?_, ?_, ?_, hmi⟩
   · intro j hj
     have : j ≠ y := fun e => hj (e ▸ reach_child hy)
     simp [this]
@@ -364,24 +417,24 @@ theorem step_main (P : Prog) (i y : Frid) (hy : Child P i y) (m : Option Fid) (s
 
 theorem step_markOverlap (P : Prog) (i : Frid) (b : Bool) (s : St W) : Step P i s (markOverlap b s) :=
   ⟨fun _ _ => rfl, fun _ _ => rfl, fun _ _ => rfl, fun _ _ => rfl,
-   fun h => by rw [bad_markOverlap, h]; rfl⟩
+   fun h => by rw [bad_markOverlap, h]; rfl, fun h => h⟩
 
 theorem step_markReenter (P : Prog) (i : Frid) (b : Bool) (s : St W) : Step P i s (markReenter b s) :=
   ⟨fun _ _ => rfl, fun _ _ => rfl, fun _ _ => rfl, fun _ _ => rfl,
-   fun h => by rw [bad_markReenter, h]; rfl⟩
+   fun h => by rw [bad_markReenter, h]; rfl, fun h => h⟩
 
 @[simp] theorem fr_markLeft (b : Bool) (s : St W) (j : Frid) : (markLeft b s).fr j = s.fr j := rfl
 @[simp] theorem fr_noteEnter (f : Fid) (s : St W) (j : Frid) : (noteEnter f s).fr j = s.fr j := rfl
 @[simp] theorem fr_noteExit (f : Fid) (s : St W) (j : Frid) : (noteExit f s).fr j = s.fr j := rfl
 
 theorem step_markLeft (P : Prog) (i : Frid) (b : Bool) (s : St W) : Step P i s (markLeft b s) :=
-  ⟨fun _ _ => rfl, fun _ _ => rfl, fun _ _ => rfl, fun _ _ => rfl, fun h => h⟩
+  ⟨fun _ _ => rfl, fun _ _ => rfl, fun _ _ => rfl, fun _ _ => rfl, fun h => h, fun h => h⟩
 
 theorem step_noteEnter (P : Prog) (i : Frid) (f : Fid) (s : St W) : Step P i s (noteEnter f s) :=
-  ⟨fun _ _ => rfl, fun _ _ => rfl, fun _ _ => rfl, fun _ _ => rfl, fun h => h⟩
+  ⟨fun _ _ => rfl, fun _ _ => rfl, fun _ _ => rfl, fun _ _ => rfl, fun h => h, fun h => h⟩
 
 theorem step_noteExit (P : Prog) (i : Frid) (f : Fid) (s : St W) : Step P i s (noteExit f s) :=
-  ⟨fun _ _ => rfl, fun _ _ => rfl, fun _ _ => rfl, fun _ _ => rfl, fun h => h⟩
+  ⟨fun _ _ => rfl, fun _ _ => rfl, fun _ _ => rfl, fun _ _ => rfl, fun h => h, fun h => h⟩
 
 /-! ### acts -/
 
@@ -420,14 +473,29 @@ theorem setDone_own (frs : List Frid) (i : Frid) (s : St W) :
     refine ⟨this.1.trans ?_, this.2.1.trans ?_, this.2.2.trans (by simp)⟩ <;>
       by_cases h : i = k <;> simp [h]
 
+theorem setDone_mi (P : Prog) (frs : List Frid) (s : St W) (h : MI P s) : MI P (setDone frs s) := by
+  induction frs generalizing s with
+  | nil => exact h
+  | cons k ks ih =>
+    simp only [setDone, List.foldl_cons]
+    have := ih (s.modFr k (fun x => { x with done := true })) (by
+      apply h.congr
+      · intro x; by_cases e : x = k
+        · subst e; simp
+        · simp [e]
+      · intro x; by_cases e : x = k
+        · subst e; simp
+        · simp [e])
+    simpa only [setDone] using this
+
 theorem runAct_step (P : Prog) (sem : Sem W) (ctx : Ctx) (f : Fid) (i : Frid) (a : Act) (ha : DoneOnly i a)
     (s : St W) : Step P i s (runAct sem ctx f a s).1 ∧ Keep i s (runAct sem ctx f a s).1 := by
   cases a with
-  | world aid => exact ⟨⟨fun _ _ => rfl, fun _ _ => rfl, fun _ _ => rfl, fun _ _ => rfl, fun h => h⟩, rfl, rfl⟩
+  | world aid => exact ⟨⟨fun _ _ => rfl, fun _ _ => rfl, fun _ _ => rfl, fun _ _ => rfl, fun h => h, fun h => h⟩, rfl, rfl⟩
   | done frs =>
     simp only [runAct]
     have hfrs : ∀ j, j ∈ frs → j = i := ha
-    refine ⟨⟨?_, ?_, ?_, ?_, ?_⟩, ?_⟩
+    refine ⟨⟨?_, ?_, ?_, ?_, ?_, setDone_mi P frs s⟩, ?_⟩
     · intro j hj
       have : j ≠ i := fun e => hj (e ▸ Reach.refl j)
       rw [setDone_other frs i hfrs s j this]
@@ -438,12 +506,15 @@ theorem runAct_step (P : Prog) (sem : Sem W) (ctx : Ctx) (f : Fid) (i : Frid) (a
     · exact ⟨(setDone_own frs i s).1, (setDone_own frs i s).2.1⟩
   | bid c frs =>
     simp only [runAct]
-    refine ⟨⟨?_, ?_, ?_, ?_, ?_⟩, ?_⟩
+    refine ⟨⟨?_, ?_, ?_, ?_, ?_, ?_⟩, ?_⟩
     · intro j _; exact (setDesire_core c frs s j).1
     · intro j _; exact core_done (setDesire_core c frs s j).1
     · intro j _; exact core_active (setDesire_core c frs s j).1
     · intro j _; exact core_actives (setDesire_core c frs s j).1
     · intro h; rw [(setDesire_core c frs s 0).2]; exact h
+    · intro h
+      exact h.congr (fun x hx => by rw [← core_done (setDesire_core c frs s x).1]; exact hx)
+        (fun x => core_main (setDesire_core c frs s x).1)
     · exact ⟨core_active (setDesire_core c frs s i).1, core_actives (setDesire_core c frs s i).1⟩
 
 theorem runActs_step (P : Prog) (sem : Sem W) (ctx : Ctx) (f : Fid) (i : Frid) (acts : List Act)
@@ -479,6 +550,7 @@ theorem forEach_rel {α : Type} {R : St W → St W → Prop} (hrefl : ∀ s, R s
 structure Owned (P : Prog) (s : St W) : Prop where
   actives : ∀ i f, f ∈ (s.fr i).actives → (P.frame f).framer = i
   active : ∀ i a, (s.fr i).active = some a → (P.frame a).framer = i
+  main : MI P s
 
 theorem owned_of_step {P : Prog} {i : Frid} {s s' : St W} (h : Step P i s s') (hk : Keep i s s')
     (ho : Owned P s) : Owned P s' := by
@@ -491,19 +563,24 @@ theorem owned_of_step {P : Prog} {i : Frid} {s s' : St W} (h : Step P i s s') (h
     by_cases e : j = i
     · subst e; rw [hk.1] at ha; exact ho.active j a ha
     · rw [h.active j e] at ha; exact ho.active j a ha
+  · exact h.mainI ho.main
 
 /-! ### what is assumed of the entry points of the level below -/
 
-structure OpOK (P : Prog) (op : Frid → St W → Except Err (St W)) : Prop where
-  mod : ∀ y s s', Owned P s → op y s = .ok s' → Mod (Reach P y) s s'
-  owned : ∀ y s s', Owned P s → op y s = .ok s' → Owned P s'
-  inv : ∀ y s s', Owned P s → op y s = .ok s' → s'.bad = false → InvR P y s → InvR P y s'
+structure OpOK (P : Prog) (pre : Frid → St W → Prop) (op : Frid → St W → Except Err (St W)) : Prop where
+  mod : ∀ y s s', Owned P s → pre y s → op y s = .ok s' → Mod (Reach P y) s s'
+  owned : ∀ y s s', Owned P s → pre y s → op y s = .ok s' → Owned P s'
+  inv : ∀ y s s', Owned P s → pre y s → op y s = .ok s' → s'.bad = false → InvR P y s → InvR P y s'
 
+/-- no precondition -/
+def NoPre : Frid → St W → Prop := fun _ _ => True
+
+/-- `enterAll` is called on an auxiliary after it has been claimed -/
 structure LoSpec (P : Prog) (lo : Ops W) : Prop where
-  enterAll : OpOK P lo.enterAll
-  exitAll : OpOK P lo.exitAll
-  recur : OpOK P lo.recur
-  segue : OpOK P lo.segue
+  enterAll : OpOK P (Claimed P) lo.enterAll
+  exitAll : OpOK P NoPre lo.exitAll
+  recur : OpOK P NoPre lo.recur
+  segue : OpOK P NoPre lo.segue
   exit_done : ∀ y s s', lo.exitAll y s = .ok s' → (s'.fr y).done = true
 
 /-- `Sub ∧ Keep ∧ ownership afterwards` -/
@@ -536,15 +613,16 @@ theorem reach_sub {i y : Frid} (hy : Child P i y) : ∀ j, Reach P y j → Reach
   fun _ hj => Reach.step hy hj
 
 /-- an entry point of the level below, called on a kid `y` of `i` -/
-theorem lo_sub {op : Frid → St W → Except Err (St W)} (hop : OpOK P op) {i y : Frid} (hy : Child P i y)
-    {s s' : St W} (h : op y s = .ok s') : SK P i (fun x => x = y) s s' := by
+theorem lo_sub {pre : Frid → St W → Prop} {op : Frid → St W → Except Err (St W)} (hop : OpOK P pre op)
+    {i y : Frid} (hy : Child P i y) {s s' : St W} (hpre : pre y s) (h : op y s = .ok s') :
+    SK P i (fun x => x = y) s s' := by
   intro ho
-  have hm := hop.mod y s s' ho h
+  have hm := hop.mod y s s' ho hpre h
   have hi : ¬ Reach P y i := not_reach_parent wf hy
-  refine ⟨⟨hm.mono (reach_sub hy), ?_, ?_⟩, ?_, hop.owned y s s' ho h⟩
+  refine ⟨⟨hm.mono (reach_sub hy), ?_, ?_⟩, ?_, hop.owned y s s' ho hpre h⟩
   · intro hb hbl y' hy' j hj
     by_cases e : y' = y
-    · subst e; exact hop.inv _ s s' ho h hb (hbl _ hy') j hj
+    · subst e; exact hop.inv _ s s' ho hpre h hb (hbl _ hy') j hj
     · have hnj : ¬ Reach P y j := siblings_disjoint wf hy' hy e hj
       have hji : j ≠ i := by
         intro e'; subst e'; exact not_reach_parent wf hy' hj
@@ -573,11 +651,11 @@ omit wf in
 theorem plain_child {f : Fid} {y : Frid} (hy : y ∈ (P.frame f).auxes) : Child P (P.frame f).framer y :=
   ⟨f, rfl, List.mem_append_left _ hy⟩
 
-theorem lo_sub_plain {op : Frid → St W → Except Err (St W)} (hop : OpOK P op) {f : Fid} {y : Frid}
-    (hy : y ∈ (P.frame f).auxes) {s s' : St W} (h : op y s = .ok s') :
+theorem lo_sub_plain {pre : Frid → St W → Prop} {op : Frid → St W → Except Err (St W)} (hop : OpOK P pre op)
+    {f : Fid} {y : Frid} (hy : y ∈ (P.frame f).auxes) {s s' : St W} (hpre : pre y s) (h : op y s = .ok s') :
     SK P (P.frame f).framer (fun _ => False) s s' := by
   intro ho
-  have := lo_sub wf hop (plain_child hy) h ho
+  have := lo_sub wf hop (plain_child hy) hpre h ho
   refine ⟨⟨this.1.mod, this.1.below, ?_⟩, this.2⟩
   intro x hx _
   exact this.1.kids x hx (plain_ne_cond wf hy hx)
@@ -592,18 +670,42 @@ theorem keep_of_step_other {i y : Frid} (hy : Child P i y) (f : FramerSt → Fra
   have : i ≠ y := fun e => child_ne wf hy e.symm
   simp [Keep, this]
 
-theorem claim_step {i y : Frid} (hy : Child P i y) (m : Fid) (s : St W) :
-    Step P i s (claim P y m s) ∧ Keep i s (claim P y m s) := by
+/-- a frame claims an auxiliary that it names -/
+theorem claim_step {y : Frid} {m : Fid} (hm : y ∈ kids P m) (s : St W) :
+    Step P (P.frame m).framer s (claim P y m s) ∧ Keep (P.frame m).framer s (claim P y m s) := by
+  have hy : Child P (P.frame m).framer y := ⟨m, rfl, hm⟩
   unfold claim
   split
-  · exact ⟨step_main P i y hy _ s, keep_of_step_other wf hy _ s⟩
+  · refine ⟨step_main P _ y hy _ s ?_, keep_of_step_other wf hy _ s⟩
+    intro h f x hx hox hd
+    by_cases e : x = y
+    · subst e
+      have := wf.unique f m x hx hm
+      subst this
+      simp
+    · simp only [fr_modFr, e, if_false] at hd ⊢
+      exact h f x hx hox hd
   · exact ⟨Step.refl _ _ _, Keep.refl _ _⟩
 
-theorem release_step {i y : Frid} (hy : Child P i y) (s : St W) :
+theorem claim_claimed {y : Frid} {m : Fid} (hm : y ∈ kids P m) (s : St W) : Claimed P y (claim P y m s) := by
+  intro f hf ho
+  have := wf.unique f m y hf hm
+  subst this
+  simp [claim, ho]
+
+/-- an auxiliary that is done is released -/
+theorem release_step {i y : Frid} (hy : Child P i y) (s : St W) (hd : (s.fr y).done = true) :
     Step P i s (release P y s) ∧ Keep i s (release P y s) := by
   unfold release
   split
-  · exact ⟨step_main P i y hy _ s, keep_of_step_other wf hy _ s⟩
+  · refine ⟨step_main P i y hy _ s ?_, keep_of_step_other wf hy _ s⟩
+    intro h f x hx hox hdx
+    by_cases e : x = y
+    · subst e
+      simp only [fr_modFr, if_true] at hdx
+      rw [hd] at hdx; cases hdx
+    · simp only [fr_modFr, e, if_false] at hdx ⊢
+      exact h f x hx hox hdx
   · exact ⟨Step.refl _ _ _, Keep.refl _ _⟩
 
 theorem SK.of_step {i : Frid} {s s' : St W} (h : Step P i s s' ∧ Keep i s s') (X : Frid → Prop) : SK P i X s s' :=
@@ -622,8 +724,9 @@ theorem frameEnter_sk {f : Fid} {s s' : St W} (h : frameEnter P sem lo f s = .ok
   refine SK.trans h1 ?_
   refine forEach_rel (R := SK P (P.frame f).framer (fun _ => False)) (SK.refl _ _) (fun _ _ _ => SK.trans) _ _ ?_ _ _ h
   intro y hy s1 s2 h2
-  have hc := plain_child (P := P) hy
-  exact SK.trans (SK.of_step wf (claim_step wf hc f s1) _) (lo_sub_plain wf hlo.enterAll hy h2)
+  have hk : y ∈ kids P f := List.mem_append_left _ hy
+  exact SK.trans (SK.of_step wf (claim_step wf hk s1) _)
+    (lo_sub_plain wf hlo.enterAll hy (claim_claimed wf hk s1) h2)
 
 omit wf hlo in
 theorem restartClocks_step (i : Frid) (s : St W) :
@@ -693,9 +796,13 @@ theorem owned_activate {i : Frid} {a : Fid} {s : St W} (ho : Owned P s)
       rw [← hb]; exact haa
     · simp only [activate, fr_emit, fr_modFr, e, if_false] at hb
       exact ho.active j b hb
+  · have : MI P (s.modFr i (fun x => { x with active := some a, actives := (P.frame a).outline })) :=
+      ho.main.modFr i _ rfl (fun h => h)
+    exact this
 
 /-- `Framer.enterAll` -/
-theorem enterAll_spec {i : Frid} {s s' : St W} (ho : Owned P s) (h : enterAll P sem lo i s = .ok s') :
+theorem enterAll_spec {i : Frid} {s s' : St W} (ho : Owned P s) (hcl : Claimed P i s)
+    (h : enterAll P sem lo i s = .ok s') :
     Mod (Reach P i) s s' ∧ Owned P s' ∧ (s'.bad = false → InvR P i s → InvR P i s') ∧
     (s'.fr i).active = some (P.framer i).first := by
   unfold enterAll at h
@@ -705,7 +812,8 @@ theorem enterAll_spec {i : Frid} {s s' : St W} (ho : Owned P s) (h : enterAll P 
   obtain ⟨s2, hs2⟩ : ∃ x, x = activate P i (P.framer i).first s1 := ⟨_, rfl⟩
   replace h : enter P sem lo i (s2.fr i).actives s2 = .ok s' := by subst hs2 hs1 hs0; exact h
   have st0 : Step P i s s0 := hs0 ▸ step_markReenter P i _ s
-  have st1 : Step P i s0 s1 := hs1 ▸ step_modFr P i _ s0
+  have st1 : Step P i s0 s1 := by
+    rw [hs1]; exact step_undone P i s0 (by rw [hs0]; exact hcl)
   have st2 : Step P i s1 s2 := by
     rw [hs2]; unfold activate
     exact (step_modFr P i _ s1).trans (step_emit P i _ _)
@@ -765,26 +873,41 @@ theorem deactivateAux_sk {i x : Frid} (hx : CondKid P i x) {s s' : St W} (ho : O
   | ok s1 =>
     simp only [h1, Except.ok.injEq] at h
     subst h
-    have hr := release_step wf hx.child s1
-    refine ⟨SK.trans (lo_sub wf hlo.exitAll hx.child h1) (SK.of_step wf hr _) ho, ?_⟩
+    have hr := release_step wf hx.child s1 (hlo.exit_done x s s1 h1)
+    refine ⟨SK.trans (lo_sub wf hlo.exitAll hx.child trivial h1) (SK.of_step wf hr _) ho, ?_⟩
     have : ((release P x s1).fr x).done = (s1.fr x).done := by
       unfold release; split <;> simp
     rw [this]; exact hlo.exit_done x s s1 h1
 
-theorem deactivize_sk {i x : Frid} (hx : CondKid P i x) {s s' : St W} (ho : Owned P s)
-    (h : deactivize P lo x s = .ok s') : SKO P i (fun z => z = x) s s' ∧ (s'.fr x).done = true := by
+omit hlo in
+/-- a conditional auxiliary that is not done belongs to the frame that names it (so the ownership test of the
+repaired `deactivize` / `Suspender.action` never fails in a well-formed program) -/
+theorem owner_of_running {f : Fid} {x : Frid} (hx : IsSusp P f x) {s : St W} (ho : Owned P s)
+    (hd : (s.fr x).done = false) : notOwner P x f s = false := by
+  unfold notOwner
+  cases hor : (P.framer x).original with
+  | false => rfl
+  | true =>
+    have := ho.main f x (List.mem_append_right _ hx) hor hd
+    simp [this]
+
+theorem deactivize_sk {f : Fid} {x : Frid} (hx : IsSusp P f x) {s s' : St W} (ho : Owned P s)
+    (h : deactivize P lo f x s = .ok s') :
+    SKO P (P.frame f).framer (fun z => z = x) s s' ∧ (s'.fr x).done = true := by
   unfold deactivize at h
-  split at h
-  · rename_i hd
-    simp only [Except.ok.injEq] at h; subst h
+  cases hd : (s.fr x).done with
+  | true =>
+    simp only [hd, Bool.true_or, if_true, Except.ok.injEq] at h; subst h
     exact ⟨SK.refl _ _ _ ho, hd⟩
-  · exact deactivateAux_sk wf hlo hx ho h
+  | false =>
+    rw [hd, owner_of_running wf hx ho hd] at h
+    exact deactivateAux_sk wf hlo (susp_condkid hx) ho h
 
 /-- the `deactivize` side acts of one frame -/
-theorem deactivize_all {i : Frid} (l : List Frid) (hl : ∀ x, x ∈ l → CondKid P i x) (X : Frid → Prop)
-    (hX : ∀ x, x ∈ l → X x) : ∀ s s', Owned P s → forEach (deactivize P lo) l s = .ok s' →
-      SKO P i X s s' ∧ (∀ x, x ∈ l → (s'.fr x).done = true) ∧
-      (∀ z, CondKid P i z → (s.fr z).done = true → (s'.fr z).done = true) := by
+theorem deactivize_all {f : Fid} (l : List Frid) (hl : ∀ x, x ∈ l → IsSusp P f x) (X : Frid → Prop)
+    (hX : ∀ x, x ∈ l → X x) : ∀ s s', Owned P s → forEach (deactivize P lo f) l s = .ok s' →
+      SKO P (P.frame f).framer X s s' ∧ (∀ x, x ∈ l → (s'.fr x).done = true) ∧
+      (∀ z, CondKid P (P.frame f).framer z → (s.fr z).done = true → (s'.fr z).done = true) := by
   induction l with
   | nil =>
     intro s s' ho h; simp only [forEach, Except.ok.injEq] at h; subst h
@@ -792,14 +915,14 @@ theorem deactivize_all {i : Frid} (l : List Frid) (hl : ∀ x, x ∈ l → CondK
   | cons x xs ih =>
     intro s s' ho h
     simp only [forEach] at h
-    cases h1 : deactivize P lo x s with
+    cases h1 : deactivize P lo f x s with
     | error e => simp [h1] at h
     | ok s1 =>
       simp only [h1] at h
       have hx := hl x (by simp)
       have d1 := deactivize_sk wf hlo hx ho h1
       have d2 := ih (fun y hy => hl y (by simp [hy])) (fun y hy => hX y (by simp [hy])) s1 s' d1.1.2.2 h
-      have mono1 : ∀ z, CondKid P i z → (s.fr z).done = true → (s1.fr z).done = true := by
+      have mono1 : ∀ z, CondKid P (P.frame f).framer z → (s.fr z).done = true → (s1.fr z).done = true := by
         intro z hz hd
         by_cases e : z = x
         · subst e; exact d1.2
@@ -807,7 +930,7 @@ theorem deactivize_all {i : Frid} (l : List Frid) (hl : ∀ x, x ∈ l → CondK
       refine ⟨⟨(d1.1.1.mono (fun z hz => hz ▸ hX x (by simp))).trans d2.1.1, d1.1.2.1.trans d2.1.2.1, d2.1.2.2⟩, ?_, ?_⟩
       · intro y hy
         rcases List.mem_cons.1 hy with e | hy'
-        · subst e; exact d2.2.2 y hx d1.2
+        · subst e; exact d2.2.2 y (susp_condkid hx) d1.2
         · exact d2.2.1 y hy'
       · intro z hz hd; exact d2.2.2 z hz (mono1 z hz hd)
 
@@ -831,11 +954,12 @@ theorem frameExit_sk {f : Fid} {s s' : St W} (ho : Owned P s) (h : frameExit P s
       | ok t1 =>
         simp only [h2, Except.ok.injEq] at ht
         subst ht
-        exact SK.trans (lo_sub_plain wf hlo.exitAll hy h2) (SK.of_step wf (release_step wf (plain_child hy) t1) _)
+        exact SK.trans (lo_sub_plain wf hlo.exitAll hy trivial h2)
+          (SK.of_step wf (release_step wf (plain_child hy) t1 (hlo.exit_done y t t1 h2)) _)
     have a2 : SK P (P.frame f).framer (fun _ => False) s1 (runActs sem .exit f (P.frame f).exacts s1) :=
       SK.of_step wf (runActs_step P sem .exit f _ _ (wf.doneEx f) s1) _
     have a12 := SK.trans a1 a2 ho
-    have a3 := deactivize_all wf hlo (suspAuxes (P.frame f).preacts) (fun x hx => susp_condkid hx)
+    have a3 := deactivize_all wf hlo (f := f) (suspAuxes (P.frame f).preacts) (fun x hx => hx)
       (fun x => IsSusp P f x) (fun x hx => hx) _ _ a12.2.2 h
     refine ⟨⟨(a12.1.mono (fun _ hf => hf.elim)).trans a3.1.1, a12.2.1.trans a3.1.2.1, a3.1.2.2⟩, a3.2.1, ?_⟩
     intro z hz hd
@@ -920,6 +1044,7 @@ theorem exitAll_spec {i : Frid} {abort : Bool} {s s' : St W} (ho : Owned P s)
         by_cases e : j = i
         · subst e; rw [hact.1] at ha; cases ha
         · rw [st.active j e] at ha; exact d.1.2.2.active j a ha
+      · exact st.mainI d.1.2.2.main
     refine ⟨hsub.mod, hown', ?_, hact.1, hact.2, ?_⟩
     · intro hb hinv
       rw [invR_iff] at hinv ⊢
@@ -960,7 +1085,7 @@ theorem frameRecur_sk {f : Fid} {s s' : St W} (h : frameRecur P sem lo f s = .ok
   refine SK.trans h1 ?_
   refine forEach_rel (R := SK P (P.frame f).framer (fun _ => False)) (SK.refl _ _) (fun _ _ _ => SK.trans) _ _ ?_ _ _ h
   intro y hy s1 s2 h2
-  exact lo_sub_plain wf hlo.recur hy h2
+  exact lo_sub_plain wf hlo.recur hy trivial h2
 
 omit wf hlo in
 /-- a list of frame-level parts, all frames of framer `i` -/
@@ -1091,7 +1216,7 @@ theorem transit_pstep {i : Frid} {f : Fid} (hf : (P.frame f).framer = i) {needs 
           rw [wf.outlineOwn far g (Outline.exEn_enters_mem _ _ _ g hg), hfar]
         have hne : r.2.1 ≠ [] := by
           intro e
-          unfold checkEnter at hc
+          unfold checkEnter checkEnterC at hc
           simp [e] at hc
         obtain ⟨sa, hsa⟩ : ∃ x, x = runActs sem .transit f tracts (markLeft (truncated P i s) s) := ⟨_, rfl⟩
         rw [← hsa] at h
@@ -1194,6 +1319,9 @@ theorem owned_truncate {i : Frid} {m : Fid} {s : St W} (ho : Owned P s)
       exact ho.active j a ha
     · simp only [truncate, fr_emit, fr_modFr, e, if_false] at ha
       exact ho.active j a ha
+  · have : MI P (s.modFr i (fun x => { x with actives := (P.frame m).head })) :=
+      ho.main.modFr i _ rfl (fun h => h)
+    exact this
 
 
 /-- facts about a conditional auxiliary clause `aux … if …` in frame `f` of framer `i` -/
@@ -1215,6 +1343,7 @@ theorem suspendEnter_pstep {i : Frid} {f : Fid} {aux : Frid} (c : Clause P i f a
   intro ho
   have hck := c.kid
   have hch := hck.child
+  have hk : aux ∈ kids P f := List.mem_append_right _ c.susp
   unfold suspendEnter at h
   obtain ⟨sb, hsb⟩ : ∃ x, x = claim P aux f (runActs sem .transit f tracts s) := ⟨_, rfl⟩
   rw [← hsb] at h
@@ -1222,19 +1351,20 @@ theorem suspendEnter_pstep {i : Frid} {f : Fid} {aux : Frid} (c : Clause P i f a
   have stb : Step P i s sb ∧ Keep i s sb := by
     rw [hsb]
     have r1 := runActs_step P sem .transit f i tracts tr s
-    have r2 := claim_step wf hch f (runActs sem .transit f tracts s)
+    have r2 := claim_step wf hk (runActs sem .transit f tracts s)
+    rw [c.hf] at r2
     exact ⟨r1.1.trans r2.1, r1.2.trans r2.2⟩
   have skb := SK.of_step wf stb (fun z => z = aux) ho
   cases h1 : lo.enterAll aux sb with
   | error e => simp [h1] at h
   | ok sc =>
     simp only [h1] at h
-    have skc := lo_sub wf hlo.enterAll hch h1 skb.2.2
+    have skc := lo_sub wf hlo.enterAll hch (hsb ▸ claim_claimed wf hk _) h1 skb.2.2
     cases h2 : lo.recur aux sc with
     | error e => simp [h2] at h
     | ok sd =>
       simp only [h2] at h
-      have skd := lo_sub wf hlo.recur hch h2 skc.2.2
+      have skd := lo_sub wf hlo.recur hch trivial h2 skc.2.2
       have subd : Sub P i (fun z => z = aux) s sd := (skb.1.trans skc.1).trans skd.1
       have keepd : Keep i s sd := (skb.2.1.trans skc.2.1).trans skd.2.1
       by_cases hd : (sd.fr aux).done = true
@@ -1273,7 +1403,7 @@ theorem suspendEnter_pstep {i : Frid} {f : Fid} {aux : Frid} (c : Clause P i f a
         have hown' : Owned P s' := by
           rw [← h.2]
           apply owned_truncate
-          · rw [hsm]; exact ⟨fun j g hg => skd.2.2.actives j g hg, fun j a ha => skd.2.2.active j a ha⟩
+          · rw [hsm]; exact ⟨fun j g hg => skd.2.2.actives j g hg, fun j a ha => skd.2.2.active j a ha, skd.2.2.main⟩
           · intro g hg; rw [wf.headOwn f g hg, c.hf]
         refine ⟨subs.mod, hown', ?_⟩
         intro hb ⟨hinv, hbel, hact⟩
@@ -1324,12 +1454,12 @@ theorem suspendStart_pstep {i : Frid} {f : Fid} {aux : Frid} (c : Clause P i f a
     by_cases ho' : ownedElsewhere aux f s = true
     · simp only [ho', if_true, Except.ok.injEq, Prod.mk.injEq] at h; rw [← h.2]; exact PStep.refl _ _
     · simp only [ho', if_false, Bool.false_eq_true] at h
-      cases hcs : lo.checkStart aux s with
+      cases hcs : lo.checkStart aux [] s with
       | error e => simp [hcs] at h
       | ok cs =>
         cases cs with
-        | false => simp only [hcs, Except.ok.injEq, Prod.mk.injEq] at h; rw [← h.2]; exact PStep.refl _ _
-        | true =>
+        | none => simp only [hcs, Except.ok.injEq, Prod.mk.injEq] at h; rw [← h.2]; exact PStep.refl _ _
+        | some _ =>
           simp only [hcs] at h
           exact suspendEnter_pstep wf hlo c tr hdone h
   · simp only [hn, if_false, Except.ok.injEq, Prod.mk.injEq, Bool.false_eq_true] at h
@@ -1346,12 +1476,12 @@ theorem suspendRun_pstep {i : Frid} {f : Fid} {aux : Frid} (c : Clause P i f aux
   | error e => simp [h1] at h
   | ok sa =>
     simp only [h1] at h
-    have ska := lo_sub wf hlo.segue hch h1 ho
+    have ska := lo_sub wf hlo.segue hch trivial h1 ho
     cases h2 : lo.recur aux sa with
     | error e => simp [h2] at h
     | ok sb =>
       simp only [h2] at h
-      have skb := lo_sub wf hlo.recur hch h2 ska.2.2
+      have skb := lo_sub wf hlo.recur hch trivial h2 ska.2.2
       have subb : Sub P i (fun z => z = aux) s sb := ska.1.trans skb.1
       have keepb : Keep i s sb := ska.2.1.trans skb.2.1
       have hrun0 : Running P s f aux := ⟨c.susp, hnd⟩
@@ -1389,6 +1519,7 @@ theorem suspendRun_pstep {i : Frid} {f : Fid} {aux : Frid} (c : Clause P i f aux
                 by_cases e : j = i
                 · subst e; rw [hact'.1] at ha'; cases ha'; exact hai
                 · rw [stf.active j e] at ha'; exact skc.1.2.2.active j a' ha'
+              · exact stf.mainI skc.1.2.2.main
             refine ⟨subs.mod, hown', ?_⟩
             intro hb ⟨hinv, hbel, _⟩
             refine ⟨?_, subs.below hb hbel, by rw [hact'.1]; simp⟩
@@ -1442,7 +1573,12 @@ theorem suspend_pstep {i : Frid} {f : Fid} (hf : (P.frame f).framer = i) {needs 
       cases hq : (s.fr aux).done with
       | true => exact absurd hq hd
       | false => rfl
-    exact suspendRun_pstep wf hlo c this h
+    by_cases hno : notOwner P aux f s = true
+    · -- in use by another frame: nothing happens (impossible in a well-formed program, see `owner_of_running`)
+      simp only [hno, if_true, Except.ok.injEq, Prod.mk.injEq] at h
+      rw [← h.2]; exact PStep.refl _ _
+    · simp only [hno, if_false, Bool.false_eq_true] at h
+      exact suspendRun_pstep wf hlo c this h
 
 theorem runPreact_pstep {i : Frid} {f : Fid} (hf : (P.frame f).framer = i) {p : Preact}
     (hp : p ∈ (P.frame f).preacts) {s s' : St W} {b : Bool}
@@ -1529,7 +1665,7 @@ theorem segue_spec {i : Frid} {s s' : St W} (ho : Owned P s) (h : segue P sem lo
       refine forEach_rel (R := SK P (P.frame f).framer (fun _ => False)) (SK.refl _ _)
         (fun _ _ _ => SK.trans) _ _ ?_ _ _ ht
       intro y hy u u' hu
-      exact lo_sub_plain wf hlo.segue hy hu
+      exact lo_sub_plain wf hlo.segue hy trivial hu
     have sk01 := SK.trans sk0 sk1
     have r1 := sk01 ho
     have p2 := segueLoop_pstep wf hlo (s1.fr i).actives (fun f hf => r1.2.2.actives i f hf) s1 s' h
@@ -1564,18 +1700,18 @@ theorem recur_spec {i : Frid} {s s' : St W} (ho : Owned P s) (h : recur P sem lo
 /-- the entry points of the next level satisfy the same specification -/
 theorem nextOps_spec : LoSpec P (nextOps P sem lo) := by
   refine ⟨⟨?_, ?_, ?_⟩, ⟨?_, ?_, ?_⟩, ⟨?_, ?_, ?_⟩, ⟨?_, ?_, ?_⟩, ?_⟩
-  · intro y s s' ho h; exact (enterAll_spec wf hlo ho h).1
-  · intro y s s' ho h; exact (enterAll_spec wf hlo ho h).2.1
-  · intro y s s' ho h; exact (enterAll_spec wf hlo ho h).2.2.1
-  · intro y s s' ho h; exact (exitAll_spec wf hlo ho h).1
-  · intro y s s' ho h; exact (exitAll_spec wf hlo ho h).2.1
-  · intro y s s' ho h; exact (exitAll_spec wf hlo ho h).2.2.1
-  · intro y s s' ho h; exact (recur_spec wf hlo ho h).1
-  · intro y s s' ho h; exact (recur_spec wf hlo ho h).2.1
-  · intro y s s' ho h; exact (recur_spec wf hlo ho h).2.2.1
-  · intro y s s' ho h; exact (segue_spec wf hlo ho h).1
-  · intro y s s' ho h; exact (segue_spec wf hlo ho h).2.1
-  · intro y s s' ho h; exact (segue_spec wf hlo ho h).2.2.1
+  · intro y s s' ho hc h; exact (enterAll_spec wf hlo ho hc h).1
+  · intro y s s' ho hc h; exact (enterAll_spec wf hlo ho hc h).2.1
+  · intro y s s' ho hc h; exact (enterAll_spec wf hlo ho hc h).2.2.1
+  · intro y s s' ho _ h; exact (exitAll_spec wf hlo ho h).1
+  · intro y s s' ho _ h; exact (exitAll_spec wf hlo ho h).2.1
+  · intro y s s' ho _ h; exact (exitAll_spec wf hlo ho h).2.2.1
+  · intro y s s' ho _ h; exact (recur_spec wf hlo ho h).1
+  · intro y s s' ho _ h; exact (recur_spec wf hlo ho h).2.1
+  · intro y s s' ho _ h; exact (recur_spec wf hlo ho h).2.2.1
+  · intro y s s' ho _ h; exact (segue_spec wf hlo ho h).1
+  · intro y s s' ho _ h; exact (segue_spec wf hlo ho h).2.1
+  · intro y s s' ho _ h; exact (segue_spec wf hlo ho h).2.2.1
   · intro y s s' h
     -- `exitAll(abort = False)` sets `.done`
     simp only [nextOps, exitAll] at h
